@@ -60,11 +60,11 @@ class Run(c11.Run):
     async def step(self, sym):
         before = self.snapshot()
         if sym == "recreate":
-            await self.w.drop_client(persist=self.w.service is not None and self.w.service.websocket is not None)
+            await self.w.drop_client(persist=self.w.service is not None and getattr(self.w.service, "websocket", True) is not None)
             self.ev.append({"op": "recreate", "out": "ok", "correct": False, "raw": "", "o": self.observe(before)})
             return
         if sym == "restart":
-            await self.w.drop_client(persist=self.w.service is not None and self.w.service.websocket is not None)
+            await self.w.drop_client(persist=self.w.service is not None and getattr(self.w.service, "websocket", True) is not None)
             await self.w.restart_server()
             self.ev.append({"op": "restart", "out": "ok", "correct": False, "raw": "", "o": self.observe(before)})
             return
@@ -88,8 +88,10 @@ class Run(c11.Run):
         else:
             r = await self.w.client_op(sym, sid, keep=True)
         out = "ok" if r["out"] == "ok" else "refused"
+        o = self.observe(before)
+        o["live"] = self.w.service is not None       # kept and not closed: the upload flags may not be on disk yet
         self.ev.append({"op": sym, "out": out, "correct": bool(r.get("correct", False)),
-                        "raw": r["out"] + ":" + r.get("err", "") + ":" + r.get("msg", "")[:100], "o": self.observe(before)})
+                        "raw": r["out"] + ":" + r.get("err", "") + ":" + r.get("msg", "")[:100], "o": o})
 
     async def run_decoy(self):
         """another service of the same scheme, with other parameters, goes through the workflow on the same server first"""
